@@ -426,6 +426,32 @@ Spans of submodels differ:
         if submodels is None:
             submodels = list(self.__dict__['submodels'].keys())
 
+        # Error if the period at `t` cannot accommodate the lags or leads of a
+        # submodel to solve (as in `BaseModel.solve_t()`): evaluating its
+        # equations would otherwise read from beyond the ends of the span, with
+        # negative indexes silently wrapping around to the opposite end
+        t_check = t
+        if t_check < 0:
+            t_check += len(self.span)
+
+        for name in submodels:
+            submodel = self.__dict__['submodels'].get(name)
+            if submodel is None:
+                continue  # Not a submodel: error raised below
+
+            if t_check < submodel.lags:
+                raise IndexError(
+                    f'Position `t` ({t}) leaves too few preceding periods '
+                    f"for the lags in submodel '{name}' ({submodel.lags})"
+                )
+
+            if t_check >= len(self.span) - submodel.leads:
+                raise IndexError(
+                    f'Position `t` ({t}) leaves too few following periods '
+                    f"for the leads in submodel '{name}' ({submodel.leads}), "
+                    f'with {len(self.span)} periods in span'
+                )
+
         # Error if `offset` points outside the current linker span (as in
         # `BaseModel.solve_t()`): check before making any changes
         if offset:
